@@ -1,0 +1,45 @@
+//go:build verif
+
+package chunkinfo
+
+import (
+	"context"
+
+	"github.com/gauss-project/aurorafs/pkg/boson"
+	"github.com/gauss-project/aurorafs/pkg/chunkinfo/pb"
+)
+
+// Hooks of the C12 / C16 harnesses (garbage collection and file deletion over the
+// pyramid reference counts). Add-only; compiled only with the build tag `verif`.
+
+// VerifGCPyramid is a copy of the pyramid side of chunkinfo: the registered roots
+// (hashData: rootCid -> {hashMax, chunkMax}) and the global reference counts
+// (chunk: cid -> count). Keys are hex addresses.
+type VerifGCPyramid struct {
+	HashData map[string][2]uint
+	Chunk    map[string]uint
+}
+
+// VerifGCPyramidDump copies the two tables under the pyramid read lock.
+func (ci *ChunkInfo) VerifGCPyramidDump() VerifGCPyramid {
+	t := VerifGCPyramid{HashData: map[string][2]uint{}, Chunk: map[string]uint{}}
+	ci.cp.RLock()
+	defer ci.cp.RUnlock()
+	for root, h := range ci.cp.hashData {
+		t.HashData[root] = [2]uint{h.hashMax, h.chunkMax}
+	}
+	for c, n := range ci.cp.chunk {
+		t.Chunk[c] = n
+	}
+	return t
+}
+
+// VerifGCOnPyramid runs onChunkPyramidResp: what the node does once a peer has
+// streamed the pyramid (edge chunks) of rootCid.
+func (ci *ChunkInfo) VerifGCOnPyramid(ctx context.Context, rootCid, peer boson.Address, pyramid map[string][]byte) error {
+	resps := make([]pb.ChunkPyramidResp, 0, len(pyramid))
+	for k, v := range pyramid {
+		resps = append(resps, pb.ChunkPyramidResp{Hash: boson.MustParseHexAddress(k).Bytes(), Chunk: v})
+	}
+	return ci.onChunkPyramidResp(ctx, nil, rootCid, peer, resps)
+}
